@@ -56,6 +56,10 @@ def c09_violations(plan: dict, result: dict):
             elif oc.startswith(("exit:", "sysexit:")):
                 if rec.get("stderr_len", 0) == 0 and rec.get("stdout_len", 0) == 0 and not rec.get("exit_msg_len"):
                     sig = "cli:silent-failure"
+                elif rec.get("traceback_printed") and not rec.get("fired"):
+                    # "never escapes with an internal exception or traceback": a catch-all that
+                    # prints the traceback and exits 1 shows the user exactly that
+                    sig = "cli:traceback-printed"
             else:
                 sig = "bad-outcome@%s:%s" % (op, oc)
         if sig:
@@ -75,8 +79,9 @@ def c09_cli_rules(plan: dict, result: dict):
     hist = {r["i"]: r for r in result["history"]}
     for i, op in enumerate(ops):
         rec = hist.get(i)
-        if rec is None or op["op"] != "cli" or not succeeded(rec.get("outcome", "")) or rec.get("fired"):
+        if rec is None or op["op"] != "cli" or not succeeded(rec.get("outcome", "")) or any(f["kind"] == "crash" for f in rec.get("fired") or []):
             continue
+        faulted = bool(rec.get("fired"))
         argv = list(op.get("argv") or [])
         if not argv or argv[0] not in ("c", "go", "py") or any(a in argv for a in ("-c", "--check", "-h", "--help", "-v", "--version")):
             continue
@@ -90,7 +95,7 @@ def c09_cli_rules(plan: dict, result: dict):
         pair = op.get("paired_parse")
         if pair is not None and pair in hist:
             pr = hist[pair]
-            if pr.get("outcome", "").startswith("parser_error:") and not pr.get("fired"):
+            if pr.get("outcome", "").startswith("parser_error:") and not pr.get("fired") and not faulted:
                 out.append({"sig": "cli:success-for-rejected-schema", "op_index": i, "op": "cli", "outcome": rec["outcome"], "msg": "parse() of the same path was rejected (%s) but the command line exited 0" % pr["outcome"]})
     return out
 
@@ -106,13 +111,22 @@ def c09_silent_failures(res0: dict, res1: dict):
     for rec in res1["history"]:
         if rec["op"] not in ("render", "cli") or not succeeded(rec.get("outcome", "")):
             continue
-        fired = [f for f in (rec.get("fired") or []) if f["kind"] != "crash" and f["seam"] in ("open_w", "write", "close_w")]
+        # write-side faults (incl. the rename that moves a temporary file into place and fsync),
+        # and read-side faults on schema sources: an unreadable source must be reported, it can
+        # never legitimately lead to a *successful* compile with other bytes
+        fired = [
+            f
+            for f in (rec.get("fired") or [])
+            if f["kind"] != "crash" and (f["seam"] in ("open_w", "write", "close_w", "rename", "fsync") or (f["seam"] in ("open_r", "read") and (f.get("path") or "").endswith(".bitproto")))
+        ]
         if not fired:
             continue
         r0 = by_i.get(rec["i"])
         if r0 is None or not succeeded(r0.get("outcome", "")):
             continue
         o0, o1 = r0.get("outputs") or {}, rec.get("outputs") or {}
+        # (what the fault-free twin left under a name it wrote or renamed into place; temporary
+        # names that are gone afterwards are not in o0 and so not compared)
         for base in r0.get("wrote") or []:
             if base in o0 and o1.get(base) != o0[base]:
                 out.append(
